@@ -302,7 +302,7 @@ def marked_in(raw: dict) -> list[str]:
 def gen_body(r: Any, G: g.Gen, op: Operator, others: list[Operator]) -> tuple[dict, dict]:
     """A body with the leftovers of this operator and of other Kopf operators; returns (body, tags)."""
     tags = {'own': False, 'other_marked': False, 'other_unmarked': False, 'last_applied': False, 'drs': False, 'old': False,
-            'near_miss': False}
+            'near_miss': False, 'changed_since': False}
     status = None
     if r.random() < 0.35:
         status = {'kopf': {'progress': {G.handler_id(): G.record()}, 'dummy': G.timestamp()}, 'x': r.choice([1, 'v', {'y': 1}]),
@@ -346,6 +346,14 @@ def gen_body(r: Any, G: g.Gen, op: Operator, others: list[Operator]) -> tuple[di
         if kind == 'ok' and merge_from(op, [('diffbase', ess)]):
             tags['old'] = True
             tags['own'] = True
+            # ... and the object has changed since (so that old != new, reason = update, a real diff)
+            x = r.random()
+            if x < 0.25:
+                raw, _, _ = mutate_payload(r, raw)
+                tags['changed_since'] = True
+            elif x < 0.45 and isinstance(raw.get('spec'), dict):
+                raw['spec'] = mutate_json(r, G, raw['spec'])
+                tags['changed_since'] = True
     if r.random() < 0.4:
         if merge_from(op, [('store', r.choice(['upd', 'fld0', G.handler_id()]), G.record())]):
             tags['own'] = True
@@ -716,6 +724,16 @@ def check_other_operator(ctx: fw.Ctx, op: Operator, other: Operator, raw: dict, 
     kind, patch = other.own_write(raw, ops)
     if k0 != 'ok' or kind != 'ok' or not patch:
         return
+    # "invisible iff detectable": a markable prefix that carries no marker on the object and gets none with this write
+    # (possible only for annotations left by a Kopf older than the marker, e.g. when such a record is purged) is
+    # outside the statement; unmarkable 'kopf.*' prefixes stay in (F5).
+    before_anns = _ann(raw)
+    for q in sorted({k.split('/', 1)[0] for k in _ann(patch) if '/' in k}):
+        known = q == 'kopf.zalando.org' or q.endswith('.kopf.zalando.org')
+        if not known and not _kopf_unmarkable(q) and f'{q}/kopf-managed' not in before_anns \
+                and _ann(patch).get(f'{q}/kopf-managed') is None:
+            ctx.count('other_operator', 'skipped:undetectable-before-and-after')
+            return
     after = canon.merge7386(raw, patch)
     k1, e1 = op.essence(after)
     case = {'operator': op.describe(), 'other': other.describe(), 'other_prefixes': theirs, 'body': raw,
@@ -832,7 +850,7 @@ def run(ctx: fw.Ctx) -> int:
         ctx.count('corpus', c['kind'])
 
     # ================= diff / reduce =================
-    n_pairs = ctx.scale(1200, 30000)
+    n_pairs = ctx.scale(1000, 30000)
     for i in range(n_pairs):
         a = G.obj(3, nkeys=(1, 2, 3, 4)) if r.random() < 0.85 else G.json(3)
         b = mutate_json(r, G, a) if r.random() < 0.85 else G.json(3)
@@ -884,6 +902,15 @@ def run(ctx: fw.Ctx) -> int:
             term = f'diff_sameb (reduce {cdiff(d)} {cq.cpath(path)}) {cdiff(red)}'
             D['reduce'].append(fw.Case(term, {'a': a, 'b': b, 'path': list(path), 'diff': diff_list(d), 'reduced': diff_list(red)},
                                        diag=f'reduce {cdiff(d)} {cq.cpath(path)}'))
+            # reduce of a hand-made (coarser) diff: one CHANGE item above the path, old/new possibly both mappings
+            if path and r.random() < 0.3:
+                j = r.randrange(len(path))
+                hand = diffs.Diff([diffs.DiffItem(diffs.DiffOperation.CHANGE, tuple(path[:j]), resolve_path(a, tuple(path[:j])),
+                                                  resolve_path(b, tuple(path[:j])))])
+                hred = diffs.reduce(hand, path)
+                D['reduce'].append(fw.Case(f'diff_sameb (reduce {cdiff(hand)} {cq.cpath(path)}) {cdiff(hred)}',
+                                           {'hand_made_diff': diff_list(hand), 'path': list(path), 'reduced': diff_list(hred)},
+                                           diag=f'reduce {cdiff(hand)} {cq.cpath(path)}'))
             # adjust_cause as a whole (old may be None = never handled)
             old = None if r.random() < 0.1 else a
             dd = diffs.diff(old, b)
@@ -906,7 +933,7 @@ def run(ctx: fw.Ctx) -> int:
         add_diff_case(a, b, src, 'full')
 
     # ================= essence: build, clear o build, old/new/diff, own writes, other operators =================
-    n = ctx.scale(500, 8000)
+    n = ctx.scale(400, 8000)
     for i in range(n):
         op = gen_operator(r)
         others = [gen_operator(r) for _ in range(r.choice([0, 0, 1, 1, 2]))]
